@@ -217,3 +217,33 @@ def writer_reader(tier, seed):
 
 native_check("C19", "writer-reader-agreement", "bounded", writer_reader,
              doc="what update_cache writes is what the checks accept; truncations / corruptions are ignored")
+
+
+# ---- imported xonsh modules go through the same cache: the import hook's get_code ------------------------------------------------------
+IH = "xonsh/imphooks.py::"
+HOOK = Obj("XonshImportHook", _execer=EXECER, _filenames=Opaque("names"))
+IMPX = dict(RUNX, **ENVX)
+IMPX.update({
+    "XonshImportHook.get_filename": Ext(ret=Union(NoneT, Str), pure=True, uf="module_file"), "module_file": Ext(ret=Union(NoneT, Str), pure=True, uf="module_file"),
+    "XonshImportHook.get_source": Ext(ret=Str, pure=True, uf="module_source", raises=["OSError", "Exception+"], note="ghost: current source text of the module file"),
+    "module_source": Ext(ret=Str, pure=True, uf="module_source"),
+})
+contract(
+    IH + "XonshImportHook.get_code", "C19", params=dict(self=HOOK, fullname=Str),
+    globals=dict(G, XSH=Obj("XSH", env=Nullable(Obj("Env")))), externals=IMPX, config=CFG, returns=Union(CODE, OTHER),
+    calls={"should_use_cache": CC + "should_use_cache", "script_cache_check": CC + "script_cache_check", "update_cache": CC + "update_cache"},
+    locals={"ccode": Union(NoneT, CODE, OTHER), "ctx": Opaque("ns")},
+    raises={"ImportError": "module_file(self, fullname) is None", "OSError": True, "Exception+": True, "ValueError": True},
+    raises_iff=["ImportError"],
+    ensures={
+        "cache-untouched-when-switched-off-or-no-session": 'implies(XSH.env is None, len(log("call:script_cache_check")) == 0 and len(log("call:update_cache")) == 0)',
+        "hands-the-import-machinery-a-code-object": "isinstance(result, types.CodeType)",
+    },
+    abstract=[dict(line_contains="ctx = {}", may_raise=False, reason="a fresh dummy namespace for the module")],
+    ensures_locals={
+        "a-module-compiled-afresh-is-the-compilation-of-its-current-source":
+            'implies(len(log("call:script_cache_check")) == 0 or len(log("call:update_cache")) == 1, result == compiled(module_file(self, fullname), module_source(self, fullname), self._execer, ctx, ctx, "exec"))',
+    },
+    from_property="Running a script ... with the bytecode cache enabled is observably identical to running it uncached (imported .xsh modules: the hook returns either an entry "
+                  "script_cache_check accepted - its own contract - or the compilation of the current source; nothing else)",
+)
